@@ -61,6 +61,14 @@ type outcome struct {
 	msg      []byte
 }
 
+// soft reports the findings the adapter collected without stopping; a known
+// one is counted and the case goes on.
+func soft(t vlib.TB, I inst, desc string) {
+	for _, hv := range I.Soft() {
+		vlib.Report(t, hv.key, desc+": "+hv.detail)
+	}
+}
+
 func classify(err error) (stage string, hv *harnessViol) {
 	var de *decodeErr
 	var oe *opErr
@@ -543,10 +551,8 @@ func fmtVec(v []*big.Int) string {
 // aggEqual compares circl's aggregate with the model; representable tells
 // whether the model value fits the aggregate type and is below the modulus.
 func aggEqual(c *icase, got any, want []*big.Int) (equal, representable bool) {
-	for _, w := range want {
-		if w.Cmp(c.I.L().p) >= 0 || w.Cmp(two64) >= 0 {
-			return false, false
-		}
+	if below, fits := aggRange(c, want); !below || !fits {
+		return false, false
 	}
 	if c.scalar {
 		g, ok := got.(uint64)
@@ -562,6 +568,23 @@ func aggEqual(c *icase, got any, want []*big.Int) (equal, representable bool) {
 		}
 	}
 	return true, true
+}
+
+// aggRange: is every position of the exact aggregate below the field modulus
+// (otherwise the property demands nothing), and does it fit the 64-bit
+// aggregate type (otherwise the only right answer is the documented error —
+// Fp.GetUint64: "if x < 2^64" — never another value).
+func aggRange(c *icase, want []*big.Int) (belowModulus, fits bool) {
+	belowModulus, fits = true, true
+	for _, w := range want {
+		if w.Cmp(c.I.L().p) >= 0 {
+			belowModulus = false
+		}
+		if w.Cmp(two64) >= 0 {
+			fits = false
+		}
+	}
+	return
 }
 
 func measBytes(m any) []byte { return []byte(fmt.Sprintf("%v", m)) }
@@ -645,6 +668,15 @@ func batchProperty(t *rapid.T, name string, shares uint8, large bool, maxBatch i
 		vlib.Class(sub, "every-call-repeated")
 	}
 	vlib.Class(sub, fmt.Sprintf("shares=%d", n))
+	if c.checked > 0 {
+		cls := "chunk-not-dividing"
+		if c.chunk >= c.checked {
+			cls = "chunk>=total"
+		} else if c.checked%c.chunk == 0 {
+			cls = "chunk-divides"
+		}
+		vlib.Class(sub, cls)
+	}
 	var vk VerifyKey
 	copy(vk[:], vlib.EdgeBytes(t, len(vk), "vk"))
 
@@ -684,6 +716,7 @@ func batchProperty(t *rapid.T, name string, shares uint8, large bool, maxBatch i
 		if p != nil {
 			return nil, &panicErr{p, st}
 		}
+		soft(t, I, c.desc)
 		return r, err
 	}
 
@@ -716,6 +749,7 @@ func batchProperty(t *rapid.T, name string, shares uint8, large bool, maxBatch i
 		}
 		var o outcome
 		p, st := vlib.Catch(func() { o = process(I, &vk, v) })
+		soft(t, I, c.desc)
 		if p != nil {
 			vlib.Report(t, "C19/panic/"+name+"/prepare/"+vlib.PanicClass(p), fmt.Sprintf("%s alteration %s: %v\n%s", c.desc, label, p, st))
 			return false
@@ -778,6 +812,7 @@ func batchProperty(t *rapid.T, name string, shares uint8, large bool, maxBatch i
 		}
 		var o outcome
 		p, st := vlib.Catch(func() { o = process(I, &vk, honestView(I, r)) })
+		soft(t, I, c.desc)
 		if p != nil {
 			vlib.Report(t, "C19/panic/"+name+"/prepare/"+vlib.PanicClass(p), fmt.Sprintf("%s invalid measurement %v: %v\n%s", c.desc, m, p, st))
 			return false
@@ -819,6 +854,7 @@ func batchProperty(t *rapid.T, name string, shares uint8, large bool, maxBatch i
 		}
 		var o outcome
 		p, st := vlib.Catch(func() { o = process(I, &vk, honestView(I, r)) })
+		soft(t, I, c.desc)
 		if p != nil {
 			vlib.Report(t, "C19/panic/"+name+"/prepare/"+vlib.PanicClass(p), fmt.Sprintf("%s measurement %v: %v\n%s", c.desc, m, p, st))
 			return
@@ -882,9 +918,21 @@ func batchProperty(t *rapid.T, name string, shares uint8, large bool, maxBatch i
 	} else {
 		_, representable = aggEqual(c, nil, want)
 	}
+	below, fits := aggRange(c, want)
 	switch {
-	case !representable:
-		vlib.Class(sub, "aggregate>=2^64-or-modulus(not asserted)")
+	case !below:
+		vlib.Class(sub, "aggregate>=modulus(not asserted)")
+	case !fits:
+		// below the modulus but beyond 64 bits: an error is the only right answer
+		if _, hv := classify(err); hv != nil {
+			vlib.Report(t, hv.key, c.desc+": "+hv.detail)
+			return
+		}
+		if err == nil {
+			vlib.Report(t, "C19/aggregate/"+name+"/overflow-not-reported", fmt.Sprintf("%s batch %v: the aggregate is %s (a position reaches 2^64) but Unshard returns %v without an error", c.desc, ms, fmtVec(want), got))
+			return
+		}
+		vlib.NonTrivial(sub, "aggregate>=2^64 → error", []byte(c.desc), []byte(fmt.Sprint(ms)))
 	case err != nil:
 		if _, hv := classify(err); hv != nil {
 			vlib.Report(t, hv.key, c.desc+": "+hv.detail)
@@ -1266,6 +1314,9 @@ func runOne(t *testing.T, sub string, c *icase, m any, k int, class string, repl
 		stage = "Unshard"
 		got, err = I.Unshard(aggs, 1)
 	})
+	for _, hv := range I.Soft() {
+		vlib.ReportDirect(t, hv.key, c.desc+": "+hv.detail, replay)
+	}
 	switch {
 	case p != nil:
 		vlib.ReportDirect(t, "C19/panic/"+name+"/"+stage+"/"+vlib.PanicClass(p), fmt.Sprintf("%s: %v\n%s", c.desc, p, st), replay)
@@ -1438,6 +1489,15 @@ func TestC19Structured(t *testing.T) {
 						o = process(I, &vk, honestView(I, r))
 					}
 				})
+				soft(t, I, c.desc)
+				if _, hv := classify(err); hv != nil {
+					vlib.Report(t, hv.key, c.desc+": "+hv.detail)
+					return
+				}
+				if o.viol != nil {
+					vlib.Report(t, o.viol.key, c.desc+": "+o.viol.detail)
+					return
+				}
 				if p != nil || err != nil || !o.accepted {
 					vlib.Report(t, "C19/honest-rejected/"+name+"/structured", fmt.Sprintf("%s measurement %v: panic=%v err=%v stage=%s %v\n%s", c.desc, m, p, err, o.stage, o.err, st))
 					return
@@ -1487,6 +1547,7 @@ func TestC19Structured(t *testing.T) {
 						vlib.Eval(sub)
 						var o outcome
 						p, st := vlib.Catch(func() { o = process(I, &vk, v) })
+						soft(t, I, c.desc)
 						if p != nil {
 							vlib.Report(t, "C19/panic/"+name+"/prepare/"+vlib.PanicClass(p), fmt.Sprintf("%s %s: %v\n%s", c.desc, label, p, st))
 							return
@@ -1506,5 +1567,125 @@ func TestC19Structured(t *testing.T) {
 				}
 			})
 		})
+	}
+}
+
+// runBatch: a batch of valid measurements (2 aggregators or whatever the case
+// has) through the byte-level path with seed-derived nonces and randomness;
+// returns what Unshard returns.
+func runBatch(c *icase, ms []any, base uint64) (got any, err error) {
+	I := c.I
+	l := I.L()
+	var vk VerifyKey
+	vlib.ExpandInto(vk[:], base)
+	aggs := make([][]byte, l.shares)
+	for i := range aggs {
+		if aggs[i], err = I.AggInit(); err != nil {
+			return nil, err
+		}
+	}
+	for k, m := range ms {
+		r := &report{m: m, rand: make([]byte, l.randSize)}
+		vlib.ExpandInto(r.rand, base+uint64(2*k)+1)
+		vlib.ExpandInto(r.nonce[:], base+uint64(2*k)+2)
+		if r.pub, r.ins, err = I.Shard(m, &r.nonce, r.rand); err != nil {
+			return nil, err
+		}
+		o := process(I, &vk, honestView(I, r))
+		if !o.accepted {
+			return nil, o.err
+		}
+		for i := range aggs {
+			if aggs[i], err = I.AggUpdate(aggs[i], o.outs[i]); err != nil {
+				return nil, err
+			}
+		}
+	}
+	return I.Unshard(aggs, uint(len(ms)))
+}
+
+// TestC19Overflow: aggregates that do not fit the 64-bit aggregate type
+// (SumVec with the widest entries; the other instances cannot get there: a
+// count of reports per position, resp. a sum in the 64-bit field where a sum
+// beyond the modulus is outside the property). Each position in turn is driven
+// across 2^64: Unshard must return an error, never another vector; the batch
+// that stops at exactly 2^64-1 must be returned exactly.
+func TestC19Overflow(t *testing.T) {
+	defer vlib.Done()
+	ctx := []byte("overflow")
+	sub := "overflow/sumvec"
+	max64 := ^uint64(0)
+	for _, p := range [][3]uint{{4, 64, 16}, {1, 64, 1}, {3, 63, 10}, {5, 64, 7}} {
+		length, nbits, chunk := p[0], p[1], p[2]
+		entry := max64
+		if nbits < 64 {
+			entry = uint64(1)<<nbits - 1
+		}
+		for pos := 0; pos < int(length); pos++ {
+			for _, over := range []bool{true, false} {
+				c, be := newSumVecCase(2, length, nbits, chunk, ctx)
+				if be != nil {
+					t.Fatalf("sumvec.New(2,%d,%d,%d): %v %v", length, nbits, chunk, be.err, be.panicked)
+				}
+				// reports with the largest entry at pos until the sum passes 2^64
+				// (over) or a last report that stops at exactly 2^64-1
+				var ms []any
+				total := new(big.Int)
+				for k := 0; ; k++ {
+					v := make([]uint64, length)
+					v[pos] = entry
+					for i := range v {
+						if i != pos {
+							v[i] = uint64(k+i) & entry
+						}
+					}
+					next := new(big.Int).Add(total, bi(entry))
+					if next.Cmp(two64) >= 0 {
+						if over {
+							ms = append(ms, v)
+							total = next
+						} else if rest := new(big.Int).Sub(new(big.Int).Sub(two64, big.NewInt(1)), total); rest.Sign() > 0 {
+							v[pos] = rest.Uint64()
+							ms = append(ms, v)
+							total.Add(total, rest)
+						}
+						break
+					}
+					ms = append(ms, v)
+					total = next
+				}
+				var want []*big.Int
+				for _, m := range ms {
+					want = addVec(want, c.output(m))
+				}
+				vlib.Eval(sub)
+				replay := map[string]interface{}{"instance": c.desc, "position": pos, "over": over, "batch": fmt.Sprint(ms)}
+				var got any
+				var err error
+				pn, st := vlib.Catch(func() { got, err = runBatch(c, ms, uint64(vlib.Seed)*7919+uint64(pos)) })
+				for _, hv := range c.I.Soft() {
+					vlib.ReportDirect(t, hv.key, c.desc+": "+hv.detail, replay)
+				}
+				_, hv := classify(err)
+				switch {
+				case pn != nil:
+					vlib.ReportDirect(t, "C19/panic/sumvec/batch/"+vlib.PanicClass(pn), fmt.Sprintf("%s: %v\n%s", c.desc, pn, st), replay)
+				case err != nil && hv != nil:
+					vlib.ReportDirect(t, hv.key, c.desc+": "+hv.detail, replay)
+				case over && err == nil:
+					vlib.ReportDirect(t, "C19/aggregate/sumvec/overflow-not-reported", fmt.Sprintf("%s batch %v: position %d of the aggregate is %s >= 2^64 but Unshard returns %v without an error", c.desc, ms, pos, want[pos], got), replay)
+				case over:
+					vlib.NonTrivial(sub, "position-crosses-2^64 → error", []byte(c.desc), []byte(fmt.Sprint(ms)))
+				case err != nil:
+					vlib.ReportDirect(t, "C19/aggregate/sumvec/unshard-error", fmt.Sprintf("%s batch %v (aggregate %s fits 64 bits): %v", c.desc, ms, fmtVec(want), err), replay)
+				default:
+					if eq, _ := aggEqual(c, got, want); !eq {
+						vlib.ReportDirect(t, "C19/aggregate/sumvec/mismatch", fmt.Sprintf("%s batch %v: Unshard = %v, want %s", c.desc, ms, got, fmtVec(want)), replay)
+					} else {
+						vlib.NonTrivial(sub, "position-at-2^64-1 → exact", []byte(c.desc), []byte(fmt.Sprint(ms)))
+					}
+				}
+			}
+		}
 	}
 }
